@@ -1,2 +1,2 @@
-import OdcGeo.Drv.C19
-def main : IO Unit := OdcGeo.driverMain OdcGeo.C19.Drv.run
+import OdcGeo.Drv.C19Glue
+def main : IO Unit := OdcGeo.driverMain OdcGeo.C19.Drv.runAll
